@@ -107,7 +107,13 @@ impl Allocate<NonNull<u8>> for OneChunkAllocator {
                 "{} since there is no more chunk available.", msg);
         }
 
-        let available_size = self.size - (adjusted_start - self.start as usize);
+        let alignment_padding = adjusted_start - self.start as usize;
+        if self.size <= alignment_padding {
+            fail!(from self, with AllocationError::OutOfMemory,
+                "{} since the alignment {} cannot be satisfied inside the managed memory.", msg, layout.align());
+        }
+
+        let available_size = self.size - alignment_padding;
         if available_size <= layout.size() {
             fail!(from self, with AllocationError::OutOfMemory,
                 "{} due to insufficient available memory.", msg);
